@@ -208,6 +208,21 @@ def handle (st : DState) (line : String) : DState × String :=
       | ["eq", a, b] => match parseNat? a, parseNat? b with
         | some a, some b => run (.eq a b) | _, _ => (st, "bad-op")
       | _ => (st, "bad-op")
+    | "fromstr" => match parseNats args with
+      | some cs => (st, showExcept MObj.show (fromStr (cs.map Char.ofNat)))
+      | none => (st, "bad-op")
+    | "tostr" => match args with
+      | ty :: kws => match kws.mapM parseKw with
+        | some kw => match construct ty kw with
+          | .ok o => (st, "ok " ++ showList ((msg2str o).map Char.toNat))
+          | .error e => (st, "err " ++ e.name)
+        | none => (st, "bad-op")
+      | _ => (st, "bad-op")
+    | "pstream" =>
+      let groups := if args.isEmpty then [] else splitTracks args
+      match groups.mapM (fun g => g.mapM parseNat?) with
+      | some ls => (st, " ; ".intercalate ((parseStream 1 (ls.map (·.map Char.ofNat))).map StreamOut.show))
+      | none => (st, "bad-op")
     | "preset" => ({ st with p := {} }, "ok")
     | "pfeed" => match parseInts args with
       | some bs => let (p, o) := pstep st.p (.feed bs); ({ st with p := p }, o.show)
